@@ -95,17 +95,35 @@ EXPR_SHAPES = ["flat",      # v = E
 STMT_SHAPES = ["flat", "ifblock"]    # a statement-level candidate: at top level, or indented in an `if` body
 
 
+# import-level codemods: a parenthesised from-import spanning several lines, every candidate name on its own physical line
+# (opening line, candidate name lines with {n} = their line number, a line that is not a candidate, closing, a use of the kept name)
+IMPORTLIST = {
+    "unused-imports": ("from pkg{n} import (", "    nm{n},", "    kept{n},", ")", "print(kept{n})"),
+    "remove-future-imports": ("from __future__ import (", "    {future},  # {n}", "    annotations,", ")", None),
+}
+FUTURE_NAMES = ["print_function", "division", "absolute_import", "unicode_literals", "with_statement", "generators", "nested_scopes"]
+
+
 def shapes_for(k):
     if k in EXPR:
         return EXPR_SHAPES
-    return STMT_SHAPES if len(CODEMODS[k][1]) == 1 else ["flat"]
+    if len(CODEMODS[k][1]) != 1:
+        return ["flat"]
+    return STMT_SHAPES + (["importlist"] if k in IMPORTLIST else [])
+
+
+class ShapeMap(dict):
+    """site line -> shape; .open_of: site line -> first line of the multi-line statement that holds it"""
+    def __init__(self):
+        super().__init__()
+        self.open_of = {}
 
 
 def build_shaped(rng, k, nsites, shapes, one_of_each=False):
     """Lines of a file whose candidate sites sit in the given shapes; returns (lines, sites, shape_of_site)."""
     hdr, tpl = CODEMODS[k]
     span = len(tpl)
-    lines, sites, shape_of = list(hdr), [], {}
+    lines, sites, shape_of = list(hdr), [], ShapeMap()
     E = lambda n: EXPR[k].format(n=n)
     S = lambda n: tpl[0].format(n=n)
 
@@ -119,6 +137,7 @@ def build_shaped(rng, k, nsites, shapes, one_of_each=False):
         sh = todo.pop(0) if one_of_each else rng.choice(shapes)
         if sh == "pair" and not one_of_each and len(sites) + 2 > nsites:
             sh = "wrapped"
+        names = 2 if (one_of_each or len(sites) + 2 <= nsites) else 1
         n = len(lines) + 1
         new = []
         if span > 1:
@@ -127,6 +146,14 @@ def build_shaped(rng, k, nsites, shapes, one_of_each=False):
             lines.append(f"v{n} = {E(n)}" if k in EXPR else S(n)); new = [n]
         elif sh == "ifblock":
             lines.extend([f"if pad{n}:", "    " + S(n + 1)]); new = [n + 1]
+        elif sh == "importlist":
+            opening, name, kept, closing, use = IMPORTLIST[k]
+            lines.append(opening.format(n=n))
+            for i in range(names):
+                lines.append(name.format(n=n + 1 + i, future=FUTURE_NAMES[(n + i) % len(FUTURE_NAMES)])); new.append(n + 1 + i)
+            lines.extend([kept.format(n=n), closing])
+            if use:
+                lines.append(use.format(n=n))
         elif sh == "wrapped":
             lines.extend([f"r{n} = wrap(", f"    {E(n + 1)},", ")"]); new = [n + 1]
         elif sh == "kwarg":
@@ -144,6 +171,8 @@ def build_shaped(rng, k, nsites, shapes, one_of_each=False):
         for x in new:
             sites.append(x)
             shape_of[x] = sh
+            if x != n:
+                shape_of.open_of[x] = n
     pad()
     return lines, sites, shape_of
 
@@ -527,6 +556,12 @@ def e2e(ctx):
                 ghost = sorted(set(f["change_lines"]) - set(f["rewritten"]))
                 silent = sorted(set(f["rewritten"]) - set(f["change_lines"]))
                 dup = sorted({x for x in f["change_lines"] if f["change_lines"].count(x) > 1})
+                open_of = getattr(j.get("shape_of"), "open_of", {}) if r_ == j["rel"] else {}
+                if ghost and silent and set(ghost) <= {open_of.get(x) for x in silent} and all(x in open_of for x in silent):
+                    ctx.violation(f"kf_c13_change_entry_at_statement_start:{k}", f"{k} on {r_}: the candidates on lines {silent} (each alone on its "
+                                  f"physical line of a statement spanning several lines) were rewritten, but the change entries name the first "
+                                  f"line of the statement ({ghost}) instead (changes[].lineNumber: {f['change_lines']})", replay)
+                    ghost, silent = [], []
                 if ghost:
                     ctx.violation(f"kf_c13_change_for_unrewritten_line:{k}", f"{k} on {r_}: change entries name lines {ghost} but the constructs on "
                                   f"those lines were not rewritten (rewritten: {f['rewritten']}; changes[].lineNumber: {f['change_lines']}; "
